@@ -31,7 +31,10 @@ CLAIMED = {
             "Coq proof (pure mirrors of the read path + determinism over content-addressed stores) + vm_compute correspondence with fault sequences", "5/C03", ""),
     "C04": ("Theorems over the database-level model: every set/delete/batch on a non-pruning trie, whatever its outcome incl. a failing write "
             "at any index, only adds entries keyed by the hash of their value, removes nothing, and moves the root only on success; reads of "
-            "any root succeed identically on every super-store (old roots stay readable).",
+            "any root succeed identically on every super-store (old roots stay readable); end to end (C04_old_roots_after_history / _after_batch): "
+            "under the finite no-collision premise over the bodies of the old and the new store, whatever could be read from ANY root before a "
+            "history of calls or a whole squash_changes block - failing writes and a failing commit included - reads identically afterwards. "
+            "Snapshots held open across writes of their parent, and two blocks open at once on one trie object, are run with Python-side oracles.",
             "Coq proof (effect discipline by induction on fuel; read monotonicity) + vm_compute correspondence over shared stores with write failures", "5/C04", ""),
     "C05": ("Theorems: leaving the block by an exception at any point restores root, database and reference counts exactly (C05_abort); a "
             "failing commit on a non-pruning trie keeps the root and every earlier entry; after a normal exit the outer trie is exactly the trie "
